@@ -354,7 +354,8 @@ def pick_hashseeds(vocabs: List[List[str]], n: int, candidates: List[int]) -> Tu
     procs = []
     for hs in candidates:
         env = {"PATH": os.environ.get("PATH", ""), "PYTHONHASHSEED": str(hs)}
-        p = subprocess.Popen([sys.executable, "-S", "-E", "-c", _ORDER_PROBE], env=env, stdin=subprocess.PIPE, stdout=subprocess.PIPE,
+        # (not -E: that would make the probe ignore PYTHONHASHSEED)
+        p = subprocess.Popen([sys.executable, "-S", "-c", _ORDER_PROBE], env=env, stdin=subprocess.PIPE, stdout=subprocess.PIPE,
                              stderr=subprocess.DEVNULL, text=True)
         p.stdin.write(json.dumps(vocabs))
         p.stdin.close()
